@@ -7,6 +7,11 @@
 
 package agent
 
+import (
+	"sort"
+	"sync"
+)
+
 // SimHook is set by the deterministic-simulation harness (build tag "verif" only).
 var SimHook func(point, key string)
 
@@ -24,4 +29,23 @@ func simOrderClients(uuids []string) []string {
 		return f(uuids)
 	}
 	return uuids
+}
+
+// simRangeClients visits the REST clients in the order SimOrderClients gives (sorted uuids without it), so that
+// the harness owns what sync.Map.Range leaves to chance. Entries deleted meanwhile are skipped, like Range may do.
+func simRangeClients(m *sync.Map, f func(key, value interface{}) bool) {
+	var keys []string
+	m.Range(func(k, _ interface{}) bool {
+		keys = append(keys, k.(string))
+		return true
+	})
+	sort.Strings(keys)
+	keys = simOrderClients(keys)
+	for _, k := range keys {
+		if v, ok := m.Load(k); ok {
+			if !f(k, v) {
+				return
+			}
+		}
+	}
 }
